@@ -174,9 +174,11 @@ def run(ctx: Context) -> None:
         for m in ("request", "stream"):
             f = N.func("interfaces", f"AsyncRequestInterface.{m}")
             calls = [c for c in own_nodes(f.node) if isinstance(c, ast.Call) and norm(c.func) == "include_request_headers"]
-            ok = len(calls) == 1 and [norm(a) for a in calls[0].args] == ["headers"] and {k.arg: norm(k.value) for k in calls[0].keywords} == {"url": "url", "content": "content"}
+            ok = len(calls) == 1 and len(calls[0].args) == 1 and {k.arg: norm(k.value) for k in calls[0].keywords} == {"url": "url", "content": "content"}
             if ok:
-                src = [norm(a) for a in ctx.prov.expand(calls[0].args[0], f, calls[0], depth=1)]
+                # the list handed over is the fresh one made by enforce_headers (directly, or through a local of any name)
+                a0 = calls[0].args[0]
+                src = [norm(a0)] if isinstance(a0, ast.Call) else [norm(a) for a in ctx.prov.expand(a0, f, calls[0], depth=1)]
                 ok = src == ["enforce_headers(headers,name='headers')"]
             rq = [c for c in own_nodes(f.node) if isinstance(c, ast.Call) and norm(c.func) == "Request"]
             okq = len(rq) == 1 and {k.arg: norm(k.value) for k in rq[0].keywords} == {"method": "method", "url": "url", "headers": "headers", "content": "content", "extensions": "extensions"}
